@@ -30,12 +30,14 @@ def _replay_chunk(args):
 
 
 def enumerate_and_replay(menu: list[str], max_lines: int, mode: str = "collect", max_errs: int = 2, tag: str = "menu",
-                         cfg_extra: str = "", invariants: list[str] | None = None, timeout: int = 3000, dialects=("en", "fr")):
+                         cfg_extra: str = "", invariants: list[str] | None = None, timeout: int = 3000, dialects=("en", "fr"), prefix: list[int] | None = None):
     """-> (n behaviours, mismatches, TlcResult).  TLC invariant violations are returned in res.invariant_violations."""
     with Scratch(tag) as sc:
         write_dialects(sc, list(dialects))
         sc.write_json("menu.json", [cp(m) for m in menu])
-        cfg = ("SPECIFICATION Spec\nCONSTANT MaxLines = %d\nCONSTANT Mode = \"%s\"\nCONSTANT MaxErrs = %d\nCONSTRAINT Constraint\n"
+        src = open(sc.path("MC_Menu.tla")).read().replace("=" * 77, "PrefixDef == <<%s>>\n" % ", ".join(map(str, prefix or [])) + "=" * 77)
+        sc.write("MC_Menu.tla", src)
+        cfg = ("SPECIFICATION Spec\nCONSTANT MaxLines = %d\nCONSTANT Mode = \"%s\"\nCONSTANT MaxErrs = %d\nCONSTANT PrefixIdx <- PrefixDef\nCONSTRAINT Constraint\n"
                "CHECK_DEADLOCK FALSE\n" % (max_lines, mode, max_errs))
         for inv in invariants or []:
             cfg += f"INVARIANT {inv}\n"
